@@ -1,12 +1,222 @@
-(* C17 -- work in progress *)
+(* C17 -- Sweeping provider advertises every key to its closest peers, on schedule.
+
+   PARTIAL.  What is what:
+
+   THEOREMS ABOUT THE MODEL (all inputs, unbounded, by induction):
+     1-5   the buffered wrapper (Model/Buffered.v): batched execution of the queued
+           operations = one-by-one execution on keystore membership, for every operation
+           list and every way of cutting it into batches; what it does to the keys
+           waiting to be advertised (two refuted clauses = defects of the real code,
+           replayed by the harness on the real wrapper over the real SweepingProvider);
+     7-12  pure pieces of provider.go (Model/Sweep.v part B): reprovide schedule
+           arithmetic (offsets inside the cycle, order, distinctness, split regions,
+           timeBetween, the dead min-rule) and the schedule trie staying prefix-free
+           (no Panic from Trie.Add) -- each compared with the real function on generated
+           inputs at every run.
+
+   MONITORED ONLY (a verified monitor on real traces, NOT a proof of the Go worker pool):
+     6     [Level0] is the specification of the property on a time-stamped trace of what
+           the environment did (StartProviding / ProvideOnce / StopProviding / network
+           up-down / swarm changes / restarts) and of the ADD_PROVIDER messages the
+           real SweepingProvider got accepted.  [accepts] is an executable acceptor and
+           c17_accepts_sound proves  accepts p tr = true -> Level0 p tr.  The harness
+           records the trace of the real provider (testing/synctest, exact-K-nearest
+           router, recording sender) and Coq evaluates [accepts] on it.  The clauses of
+           the property text that are only monitored: every given key advertised to the
+           r XOR-nearest peers of the swarm of that moment with the current addresses
+           (l0_nearest, l0_fresh), re-advertised within interval + allowed delay while
+           online incl. swarm growth/shrink, worker configurations, outages with
+           catch-up and restarts (l0_fresh), stopped keys not advertised again (l0_stop),
+           ProvideOnce (l0_once).
+
+   NOT covered: the exploration loop closestPeersToPrefix is exercised only through the
+   traces (no model); provider/dual is not driven; message/lookup latency is zero in the
+   generated environments (worker configurations vary but workers never queue up). *)
 From Verif.Lib Require Import GoSem Bits.
-From Verif.Model Require Import Buffered.
-From Verif.Proofs Require Import BufferedProofs.
+From Verif.Model Require Import Buffered Sweep Trie Keyspace.
+From Verif.Proofs Require Import BufferedProofs SweepProofs KeyspaceBase.
 Local Open Scope N_scope.
 
+(* ---- 1. buffered wrapper: same keystore as one-by-one execution ------------------------------
+   For every list of batches of queued operations (however the worker's GetN cut the
+   queue), every initial state of the wrapped provider and every key: the key is kept
+   after the batched calls iff it is kept after applying the operations one by one. *)
 Theorem c17_buffered_equiv :
+  forall (batches : list (list bop)) (s : inner),
+    Forall (fun c => valid_ops c = true) batches ->
+    forall k, In k (ks (i_run s (flat_map batch_calls batches)))
+              <-> In k (ks (i_run s (seq_calls (concat batches)))).
+Proof. exact buffered_keystore_same_set. Qed.
+Print Assumptions c17_buffered_equiv.
+
+(* the worker's own cutting: consecutive chunks of batchSize items *)
+Theorem c17_buffered_equiv_batch_size :
   forall (batch_size : nat) (l : list bop) (s : inner) (k : N),
     (0 < batch_size)%nat -> valid_ops l = true ->
     kin k (i_run s (worker_calls batch_size l)) = kin k (i_run s (seq_calls l)).
 Proof. exact buffered_ks_equiv. Qed.
-Print Assumptions c17_buffered_equiv.
+Print Assumptions c17_buffered_equiv_batch_size.
+
+(* ---- 2. keys waiting to be advertised: a batch never queues a key that one-by-one
+   execution would not queue ... *)
+Theorem c17_buffered_advertises_no_more :
+  forall (l : list bop) (s : inner) (k : N),
+    valid_ops l = true ->
+    pin k (i_run s (batch_calls l)) = true -> pin k (i_run s (seq_calls l)) = true.
+Proof. exact buffered_pend_sub. Qed.
+Print Assumptions c17_buffered_advertises_no_more.
+
+(* ---- 3. ... and queues every key one-by-one execution queues, unless the key was already
+   kept before the batch (then the schedule advertises it) -- PARTIAL: only for batches in
+   which no ProvideOnce(k) follows a StopProviding(k) *)
+Theorem c17_buffered_advertises_all_partial :
+  forall (l : list bop) (s : inner) (k : N),
+    valid_ops l = true -> no_once_after_stop l = true ->
+    pin k (i_run s (seq_calls l)) = true ->
+    pin k (i_run s (batch_calls l)) = true \/ kin k s = true.
+Proof. exact buffered_pend_sup. Qed.
+Print Assumptions c17_buffered_advertises_all_partial.
+
+(* ---- 4. REFUTED without that hypothesis: StopProviding(k); ProvideOnce(k) in one batch is
+   executed as ProvideOnce(k); StopProviding(k), and StopProviding removes k from the
+   provide queue: k is never advertised (replayed on the real code: Run_C17 code 4) *)
+Theorem c17_buffered_once_after_stop_refuted :
+  exists (l : list bop) (s : inner) (k : N),
+    valid_ops l = true /\
+    pin k (i_run s (seq_calls l)) = true /\ pin k (i_run s (batch_calls l)) = false /\ kin k s = false.
+Proof. exact buffered_once_after_stop_lost. Qed.
+Print Assumptions c17_buffered_once_after_stop_refuted.
+
+(* ---- 5. REFUTED for undecodable items: one queued item whose key is not a valid multihash
+   makes getOperations fail and the worker drop the WHOLE batch (Run_C17 code 5) *)
+Theorem c17_buffered_bad_item_drops_batch :
+  forall l, valid_ops l = false -> batch_calls l = [].
+Proof. exact buffered_bad_item_drops_batch. Qed.
+Print Assumptions c17_buffered_bad_item_drops_batch.
+
+Theorem c17_buffered_bad_item_refuted :
+  exists (l : list bop) (s : inner) (k : N),
+    In k (ks (i_run s (seq_calls l))) /\ ~ In k (ks (i_run s (batch_calls l))).
+Proof.
+  exists [BStart 1; BBad], {| ks := []; pend := [] |}, 1. split.
+  - vm_compute. left. reflexivity.
+  - vm_compute. tauto.
+Qed.
+Print Assumptions c17_buffered_bad_item_refuted.
+
+(* ---- 6. the trace acceptor is sound (verified monitor) ------------------------------------------ *)
+Theorem c17_accepts_sound : forall p tr, accepts p tr = true -> Level0 p tr.
+Proof. exact accepts_sound. Qed.
+Print Assumptions c17_accepts_sound.
+
+(* ---- 7. reprovide schedule arithmetic: offsets lie inside the cycle ------------------------------- *)
+Theorem c17_schedule_offset_in_cycle :
+  forall I order p, 0 < I -> reprovide_time I order p < I.
+Proof. exact reprovide_time_range. Qed.
+Print Assumptions c17_schedule_offset_in_cycle.
+
+(* ---- 8. the offsets of the 2^n prefixes of one length: I*v/2^n, v the prefix XOR the order;
+   monotone in v (nearer to the order = earlier), pairwise distinct as long as the interval
+   has at least 2^n time units: the prefixes of one length partition the cycle *)
+Theorem c17_schedule_partition :
+  forall I n v1 v2,
+    (v1 <= v2 -> slot I n v1 <= slot I n v2) /\
+    (2 ^ N.of_nat n <= I -> v1 < v2 -> slot I n v1 < slot I n v2) /\
+    (0 < I -> v1 < 2 ^ N.of_nat n -> slot I n v1 < I).
+Proof.
+  intros I n v1 v2. split; [apply slot_mono|]. split; [apply slot_strict|apply slot_lt].
+Qed.
+Print Assumptions c17_schedule_partition.
+
+Theorem c17_schedule_offset_is_slot :
+  forall I order x p,
+    let q := firstn max_prefix_size (x :: p) in
+    reprovide_time I order (x :: p) = slot I (length q) (bits_val (xor_bits q (firstn (length q) order))).
+Proof. exact reprovide_time_slot. Qed.
+Print Assumptions c17_schedule_offset_is_slot.
+
+(* ---- 9. a region split in two: each half keeps the parent's offset or moves at most half
+   a slot later -- never earlier: the keys of a region reprovided at its slot come up
+   again within one interval, whatever the split *)
+Theorem c17_schedule_split :
+  forall I n v (c : bool),
+    let vc := 2 * v + (if c then 1 else 0) in
+    slot I n v <= slot I (S n) vc /\ slot I (S n) vc <= slot I n v + I / 2 ^ N.of_nat (S n) + 1.
+Proof. exact slot_child. Qed.
+Print Assumptions c17_schedule_split.
+
+(* ---- 10. c17_schedule_bound: timeBetween / timeUntil.  From offset [from] the offset [to]
+   comes up after 1..I time units (I exactly when to = from: a region reprovided at its
+   slot is due again one full interval later), and the rule
+   min(reprovideTimeForPrefix, now + interval + maxDelay) of schedulePrefixNoLock NEVER
+   changes the offset: WithMaxReprovideDelay has no effect on the schedule. *)
+Theorem c17_schedule_bound :
+  forall I from to,
+    0 < I -> from < I -> to < I ->
+    1 <= time_between I from to /\ time_between I from to <= I /\
+    (from + time_between I from to) mod I = to /\
+    time_between I from from = I.
+Proof.
+  intros I from to HI Hf Ht. destruct (time_between_spec I from to HI Hf Ht) as [A [B C]].
+  repeat split; try assumption. apply time_between_same; assumption.
+Qed.
+Print Assumptions c17_schedule_bound.
+
+Theorem c17_schedule_min_rule_never_binds :
+  forall I max_delay now_off order p,
+    0 < I -> next_time_just_reprovided I max_delay now_off (reprovide_time I order p) = reprovide_time I order p.
+Proof. exact min_rule_never_binds. Qed.
+Print Assumptions c17_schedule_min_rule_never_binds.
+
+(* ---- 11. c17_schedule_prefix_free: the schedule trie under schedulePrefixNoLock stays well
+   formed (hence prefix-free), Trie.Add never panics, and the scheduled prefixes change as
+   documented: nothing if a scheduled prefix covers the new one, otherwise the new prefix
+   replaces its scheduled superstrings *)
+Theorem c17_schedule_prefix_free :
+  forall (t : trie N) p off, wf t ->
+    exists t', sched_add t p off = Ok t' /\ wf t' /\
+      ((exists y, In y (keys_of t) /\ is_prefix y p = true) -> t' = t) /\
+      ((forall y, In y (keys_of t) -> is_prefix y p = false) ->
+         forall k, In k (keys_of t') <-> k = p \/ (In k (keys_of t) /\ is_prefix p k = false)).
+Proof. exact sched_add_wf. Qed.
+Print Assumptions c17_schedule_prefix_free.
+
+(* every history of schedulePrefixNoLock calls from the empty schedule *)
+Theorem c17_schedule_history_no_panic :
+  forall (adds : list (bits * N)),
+    exists t, fold_left (fun acc x => t <- acc ;; sched_add t (fst x) (snd x)) adds (Ok E) = Ok t /\ wf t.
+Proof.
+  intro adds.
+  assert (G : forall l t0, wf t0 ->
+     exists t, fold_left (fun acc x => t <- acc ;; sched_add t (fst x) (snd x)) l (Ok t0) = Ok t /\ wf t).
+  { induction l as [|x l IH]; intros t0 W; simpl.
+    - exists t0. auto.
+    - destruct (sched_add_wf t0 (fst x) (snd x) W) as [t1 [E1 [W1 _]]]. rewrite E1. apply IH. exact W1. }
+  apply G. exact I.
+Qed.
+Print Assumptions c17_schedule_history_no_panic.
+
+(* ---- non-vacuity ------------------------------------------------------------------------------------
+   A concrete trace (2 peers in a swarm of 3 are the r = 2 nearest of key 5; times in
+   microseconds; interval + delay = 100, grace 10): the key is given at 20, advertised
+   at 20 and 110, a ProvideOnce key at 60, a stop at 150.  It is accepted, and the
+   hypothesis of l0_fresh holds at t = 100 (kept and online during [90,100]). *)
+Definition ex_p : params := {| p_r := 2; p_K := 2; p_D := 100; p_G := 10; p_W := 0; p_end := 200 |}.
+Definition ex_tr : trace :=
+  [ESwarm 0 [4; 7; 12]; ENet 0 true;
+   EStart 20 [5]; ESent 20 5 [4; 7] true;
+   EOnce 60 [6]; ESent 60 6 [7; 4] true;
+   ESent 110 5 [7; 4] true;
+   EStop 150 [5]].
+Example c17_nonvacuous :
+  accepts ex_p ex_tr = true /\ Level0 ex_p ex_tr /\
+  (forall t', 100 - p_G ex_p <= t' -> t' <= 100 -> okb 5 (st_at ex_tr t') = true) /\
+  fresh ex_p ex_tr 5 100.
+Proof.
+  assert (A : accepts ex_p ex_tr = true) by (vm_compute; reflexivity).
+  pose proof (accepts_sound _ _ A) as L.
+  assert (H : forall t', 100 - p_G ex_p <= t' -> t' <= 100 -> okb 5 (st_at ex_tr t') = true).
+  { apply (all_in_range_sound ex_tr (okb 5) (100 - p_G ex_p) 100). vm_compute. reflexivity. }
+  split; [exact A|]. split; [exact L|]. split; [exact H|].
+  apply (l0_fresh _ _ L); [vm_compute; discriminate|vm_compute; discriminate|exact H].
+Qed.
